@@ -5,11 +5,16 @@
 -/
 import CnvVerif.Generated.ExprsBaf
 import CnvVerif.Model.Call
+import Mathlib.Tactic.Ring
+set_option linter.unusedTactic false
+set_option linter.unreachableTactic false
 namespace CnvVerif.Src
 open CnvVerif CnvVerif.Generated
 
 /-- `rescale_baf` (normal BAF 0.5) -/
 theorem callRescaleBaf_is_source (p b : Rat) : callRescaleBaf p b = src_rescale_baf p b (1/2) := by
-  simp [callRescaleBaf, src_rescale_baf]
+  -- robust against algebraically equivalent rewrites of the source expression
+  unfold callRescaleBaf src_rescale_baf
+  first | rfl | ring
 
 end CnvVerif.Src
